@@ -192,7 +192,16 @@ fn box_facts<T: Lay, N: ArrayLength>() -> BoxFacts {
         Err(_) => unreachable!(),
     };
     let r2 = look(&c);
-    let r3 = r2;
+    let r3 = {
+        let mut v: Vec<T> = Vec::with_capacity(N::USIZE + 3);
+        for i in 0..N::USIZE {
+            v.push(T::make(i as u8));
+        }
+        match GA::<T, N>::try_from_vec(v) {
+            Ok(d) => look(&d), // dropped here: the block must be released with [T; N]'s layout
+            Err(_) => unreachable!(),
+        }
+    };
     if !slice_aligned {
         stride_ok = false;
     }
@@ -207,7 +216,7 @@ fn boxed<T: Lay, N: ArrayLength>(st: &mut Stats) {
 fn judge_box(st: &mut Stats, name: &'static str, al: usize, n: usize, f: fn() -> BoxFacts) {
     st.check_case("C01", "boxed_placement", name, || format!("C01 boxed_placement {name} N={n}"), al > 1 || n > 0, || {
         let m = f();
-        let how = ["Box::generate", "Box::new", "into_boxed_slice/try_from_boxed_slice", "into_boxed_slice/try_from_boxed_slice"];
+        let how = ["Box::generate", "Box::new", "into_boxed_slice/try_from_boxed_slice", "try_from_vec(spare capacity)"];
         for k in 0..4 {
             if m.addrs[k] % al != 0 {
                 return Err(format!("AlignMismatch: {} placed the array at {:#x}, not aligned as T (align {al})", how[k], m.addrs[k]));
